@@ -13,7 +13,7 @@ import (
 func init() {
 	register(&propInfo{
 		ID:          "C03",
-		Explanation: "CFG path analysis of the WebSocket connection loop and its helpers, deciding on every control path (including the error/exit paths no test takes) the structural conditions under which no accepted call can be left without an answer: (R03.1) every site that signals connection loss first marks the connection unusable with a certainly non-nil error, and the mark is cleared only after a new socket has been installed; (R03.2) every exit of the loop runs the deferred in-flight failer, sink closer, exit signal and context cancel; (R03.3) before a redial goroutine is spawned, in-flight calls are failed and sinks closed, on every loss path; (R03.4) the failer answers every registered call, unconditionally, with the temporary-connection code and empties the table in the same critical section; (R03.5) every enqueue of a request is a select alternative to the client's exit signal; (R03.6) the accept arm either registers the request or answers it on every path, and on the connection-unusable path answers with the temporary error without registering or writing; (R03.7) a loss arm returns when no reconnect is possible; (R03.8) every per-request mailbox is a freshly made channel with capacity >= 1. (R03.12) the peer-activity channel is signalled only inside the pong/ping handlers; (R03.13) the redial dials with no library mutex held.",
+		Explanation: "CFG path analysis of the WebSocket connection loop and its helpers, deciding on every control path (including the error/exit paths no test takes) the structural conditions under which no accepted call can be left without an answer: (R03.1) every site that signals connection loss first marks the connection unusable with a certainly non-nil error, and the mark is cleared only after a new socket has been installed; (R03.2) every exit of the loop runs the deferred in-flight failer, sink closer, exit signal and context cancel; (R03.3) before a redial goroutine is spawned, in-flight calls are failed and sinks closed, on every loss path; (R03.4) the failer answers every registered call, unconditionally, with the temporary-connection code and empties the table in the same critical section; (R03.5) every enqueue of a request is a select alternative to the client's exit signal; (R03.6) the accept arm either registers the request or answers it on every path, and on the connection-unusable path answers with the temporary error without registering or writing; (R03.7) a loss arm returns when no reconnect is possible; (R03.8) every per-request mailbox is a freshly made channel with capacity >= 1. (R03.12) the peer-activity channel is signalled only inside the pong/ping handlers; (R03.13) the redial dials with no library mutex held. (R03.14) the retry loop sleeps on its back-off between re-sends.",
 		NotDecided:  "Fault timing, TCP behaviour, writes blocked on a blackholed peer (the library sets no write deadline), and that a call is eventually scheduled; 'foreign result' is covered structurally under C02.",
 		Assumptions: []string{"branch correlation is applied only to repeated nil tests of the accepted request's id", "the connection loop, failer, redial function etc. are resolved by what they do (field uses, gorilla calls), not by name"},
 		Run:         runC03,
@@ -412,6 +412,8 @@ func runC03(c *Ctx) {
 	c.mailboxRule("R03.8")
 	c.rule("R03.10", "the read cycle never stalls (restart, loss signal or redial on every path after a message was taken)")
 	c.readCycleRule("R03.10")
+	c.rule("R03.14", "a retry-tagged call that meets a fault keeps being served: the retry loop sleeps on its back-off between re-sends (and does not touch a context that may be nil)")
+	c.retryGateRule("R03.14")
 	c.rule("R03.13", "the redial dials with no library mutex held (the connection loop takes the write lock for every outgoing request before it can answer 'link is down': a dial that stalls under that lock wedges the loop, and with it fail-fast, stop and close)")
 	c.dialWithoutLocks("R03.13")
 	c.rule("R03.12", "a silent stall is detected: the peer-activity channel is signalled only inside the pong/ping handlers, never by this side's own writes")
